@@ -9,6 +9,7 @@ import DdsModel.Proofs.QuantFinB
 import DdsModel.Proofs.QuantFinC
 import DdsModel.Proofs.QuantFinD
 import DdsModel.Proofs.QuantF32Thr
+import DdsModel.Proofs.EncCarrier
 namespace Dds.C12
 open Dds.Quant
 set_option maxRecDepth 100000
@@ -445,5 +446,165 @@ theorem pick_encoder_exact_beats_dither : ∀ name ∈ formatNames, ∀ c ∈ al
   decide +kernel
 example : ((encoderTable "R8_UNORM").any fun e' => e'.accepts ⟨.gray, .u8⟩ && contains e'.flags (exactFor .u8)) = true := by
   decide
+
+/-! ## ==== carrier independence (builder P) ====================================================================
+
+Last clause of C12: "the encoded bytes do not depend on which of the 12 colour formats … carried the same pixel
+values".  Model: `EncCarrier.lean` — for every encodable non-BC format and every colour format (`Channels` ×
+`Precision`) the function "pixel of the `ImageView` ↦ stored elements ↦ bytes" along the encoder that
+`pick_encoder` selects from the pinned table: `Encoder::copy`, the integer encoders (`color_convert!` /
+`simple_color_convert`, the hand-written B8G8R8* `process_line`s: `convert_channels`, `swap(0, 2)`, `p[3] = 0xFF`,
+`s8::from_n8`, `s16::from_n16`), or `universal!` = `as_rgba_f32` (`n8::f32` / `n16::f32` per channel, `ch::*_to_rgba`
+with the `f32` defaults 0.0 / 1.0) followed by the format's closure, bit-level on the software binary32 / binary64.
+
+"The same pixel values" is read exactly as the harness oracle builds its carriers (harness/src/c12.rs
+`carrier_value`, `carriers`, `logical_px`): an 8-bit value `v` is carried as U8 `v`, U16 `257·v`, F32 the nearest
+binary32 to `v/255` — which is `n8::f32 v` (`carrier_fields_u8`, C04 `n8f32_exact`); a 16-bit value `w` as U16 `w` or
+F32 the nearest binary32 to `w/65535` = `n16::f32 w`; Grayscale `g` as RGB `(g, g, g)` or RGBA `(g, g, g, ONE)`,
+RGB as RGBA with alpha `ONE`, Alpha `a` as RGBA `(ZERO, ZERO, ZERO, a)` (`ONE` = 255 / 65535 / 1.0, `ZERO` = 0 / 0.0:
+`Norm` of src/color/mod.rs).
+
+RESULT: no exception.  For every one of the 45 formats the bytes are the same for every carrier, over the WHOLE
+8-bit and 16-bit value domains (scalar facts by kernel evaluation: 256 points, resp. 65 536 points in eight generated
+slices `Proofs/EncCarrierRows*.lean`).  The scalar conversions without a bit-level model (`fp16 / fp11 / fp10 /
+xr10::from_f32`, `yuv8 / yuv10 / yuv16::from_rgb_f32`) are parameters `Q : Ext` of every theorem: for the half / small
+float / XR fields and for ALL YUV, sub-sampled and bi-planar formats independence is proved at the level the code
+supports — the same `f32` pixels reach the closure (these formats have universal encoders only), whatever the
+closure computes.  That every quantiser involved returns a value (`some`) for every input is C15
+(`quantisers_in_field`, `s16_encodes_nearest`, `sharedexp_in_field`). -/
+
+section CarrierIndependence
+open Dds.EncCarrier Dds.Conv Dds.CF32 Dds.EncTotal
+
+/-- per field quantiser, all 256 values `v`: the U16 carrier `257·v` turns into the same `f32` as the U8 carrier; the
+F32 carrier of the oracle (nearest binary32 to `v/255`) IS `n8::f32 v`; and every quantiser that has an integer
+short cut undoes the widening exactly: UNORM8 (`copy`), SNORM8 (`s8::from_n8`), UNORM16 (`n8::n16`), SNORM16
+(`s16::from_n16 ∘ n8::n16`) -/
+theorem carrier_fields_u8 (v : Nat) (hv : v < 256) :
+    n16f32 (n8_n16 v) = n8f32 v ∧ n8f32 v = roundF32 (Spec.unorm 8 v) ∧
+    QuantF32.n8 (n8f32 v) = v ∧ QuantBits.s8 (n8f32 v) = some (s8_from_n8 v) ∧
+    QuantF32.n16 (n8f32 v) = n8_n16 v ∧ QuantBits.s16 (n8f32 v) = some (s16_from_n16 (n8_n16 v)) :=
+  ⟨n16f32_257 v hv, n8f32_nearest v hv, n8_n8f32 v hv, s8_n8f32 v hv, n16_n8f32 v hv, s16_n8f32 v hv⟩
+
+/-- per field quantiser, all 65 536 values `w`: the F32 carrier of the oracle is `n16::f32 w`, and UNORM16 (`copy`) /
+SNORM16 (`s16::from_n16`) undo it exactly -/
+theorem carrier_fields_u16 (w : Nat) (hw : w < 65536) :
+    n16f32 w = roundF32 (Spec.unorm 16 w) ∧
+    QuantF32.n16 (n16f32 w) = w ∧ QuantBits.s16 (n16f32 w) = some (s16_from_n16 w) :=
+  ⟨n16f32_nearest w hw, n16_n16f32 w hw, s16_n16f32 w hw⟩
+
+/-- every encoder of every plain format computes the `universal!` closure of `as_rgba_f32` of the pixel: the integer
+encoders (`copy`, `color_convert!`, B8G8R8*) are short cuts that agree with it on every valid pixel -/
+theorem encoders_compute_the_closure (Q : Ext) : ∀ name ∈ plainNames, ∀ (p : Prec) (px : Pix),
+    px.below (precBound p) → pixelCodes Q name p px = uni Q name (asRgbaF32 p px) :=
+  fun name hn p px hpx => pixelCodes_normal Q name hn p px hpx
+
+/-- (must) 8-bit values, the 35 plain formats, every channel layout: the bytes of a pixel do not depend on whether
+its values are carried as U8 `v`, U16 `257·v` or F32 `n8::f32 v` -/
+theorem carrier_independent_u8 (Q : Ext) : ∀ name ∈ plainNames, ∀ px : Pix, px.below 256 →
+    pixelBytes Q name .u16 (px.map n8_n16) = pixelBytes Q name .u8 px ∧
+    pixelBytes Q name .f32 (px.map n8f32) = pixelBytes Q name .u8 px := by
+  intro name hn px hpx
+  unfold pixelBytes
+  rw [(codes_u8 Q name hn px hpx).1, (codes_u8 Q name hn px hpx).2]
+  exact ⟨rfl, rfl⟩
+
+/-- (must) 16-bit values: U16 `w` or F32 `n16::f32 w` -/
+theorem carrier_independent_u16 (Q : Ext) : ∀ name ∈ plainNames, ∀ px : Pix, px.below 65536 →
+    pixelBytes Q name .f32 (px.map n16f32) = pixelBytes Q name .u16 px := by
+  intro name hn px hpx
+  unfold pixelBytes
+  rw [codes_u16 Q name hn px hpx]
+
+/-- (must) the same colour in a wider channel layout, at every precision: Grayscale as RGB / RGBA, RGB as RGBA,
+Alpha as RGBA -/
+theorem channel_carrier_independent (Q : Ext) : ∀ name ∈ plainNames, ∀ (p : Prec) (r g b a : Nat),
+    r < precBound p → g < precBound p → b < precBound p → a < precBound p →
+    pixelBytes Q name p (.rgb g g g) = pixelBytes Q name p (.gray g) ∧
+    pixelBytes Q name p (.rgba g g g (normOne p)) = pixelBytes Q name p (.gray g) ∧
+    pixelBytes Q name p (.rgba r g b (normOne p)) = pixelBytes Q name p (.rgb r g b) ∧
+    pixelBytes Q name p (.rgba 0 0 0 a) = pixelBytes Q name p (.alpha a) := by
+  intro name hn p r g b a hr hg hb ha
+  obtain ⟨h1, h2, h3, h4⟩ := codes_channels Q name hn p r g b a hr hg hb ha
+  unfold pixelBytes
+  rw [h1, h2, h3, h4]
+  exact ⟨rfl, rfl, rfl, rfl⟩
+
+/-- both axes at once, the two farthest carriers of a grey value: Grayscale / U8 `g` and RGBA / F32
+`(n8::f32 g, n8::f32 g, n8::f32 g, 1.0)` -/
+theorem carrier_independent_gray_u8_rgba_f32 (Q : Ext) : ∀ name ∈ plainNames, ∀ g, g < 256 →
+    pixelBytes Q name .f32 (.rgba (n8f32 g) (n8f32 g) (n8f32 g) CF32.one) = pixelBytes Q name .u8 (.gray g) := by
+  intro name hn g hg
+  have hb := n8f32_lt g hg
+  have h := (channel_carrier_independent Q name hn .f32 (n8f32 g) (n8f32 g) (n8f32 g) (n8f32 g) hb hb hb hb).2.1
+  have h2 := (carrier_independent_u8 Q name hn (.gray g) hg).2
+  exact h.trans h2
+
+/-- (must) sub-sampled and bi-planar formats (universal encoders only; `ch` = the channel layout of the image, the
+pixels of one block): the block's bytes are `uniBlock` of the `as_rgba_f32` pixels, and those do not depend on the
+precision that carries 8-bit / 16-bit values.  This is independence at the level the code supports: the YUV matrix
+and the averaging act on the `f32` pixels, for ANY `yuv8 / yuv10 / yuv16::from_rgb_f32` (`Q`). -/
+theorem carrier_independent_blocks (Q : Ext) : ∀ name ∈ blockNames, ∀ (ch : Chan) (pxs : List Pix),
+    (∀ p, blockBytes Q name p ch pxs = (uniBlock Q name (pxs.map (asRgbaF32 p))).map (bytesOf name)) ∧
+    ((∀ px ∈ pxs, px.below 256) →
+      blockBytes Q name .u16 ch (pxs.map (Pix.map n8_n16)) = blockBytes Q name .u8 ch pxs ∧
+      blockBytes Q name .f32 ch (pxs.map (Pix.map n8f32)) = blockBytes Q name .u8 ch pxs) ∧
+    blockBytes Q name .f32 ch (pxs.map (Pix.map n16f32)) = blockBytes Q name .u16 ch pxs := by
+  intro name hn ch pxs
+  refine ⟨fun p => ?_, fun h => ⟨?_, ?_⟩, ?_⟩ <;> unfold blockBytes <;> simp only [blockCodes_eq_uni Q name hn]
+  · rw [map_asRgba_u16_of_u8 pxs h]
+  · rw [map_asRgba_f32_of_u8]
+  · rw [map_asRgba_f32_of_u16]
+
+/-- (must) … and not on the channel layout that carries the same colours: a block of grey values as Grayscale / RGB /
+RGBA, of RGB triples as RGB / RGBA, of alpha values as Alpha / RGBA -/
+theorem channel_carrier_independent_blocks (Q : Ext) : ∀ name ∈ blockNames, ∀ (p : Prec)
+    (gs : List Nat) (cs : List (Nat × Nat × Nat)),
+    blockBytes Q name p .rgb (gs.map fun g => .rgb g g g) = blockBytes Q name p .gray (gs.map .gray) ∧
+    blockBytes Q name p .rgba (gs.map fun g => .rgba g g g (normOne p)) = blockBytes Q name p .gray (gs.map .gray) ∧
+    blockBytes Q name p .rgba (cs.map fun c => .rgba c.1 c.2.1 c.2.2 (normOne p)) =
+      blockBytes Q name p .rgb (cs.map fun c => .rgb c.1 c.2.1 c.2.2) ∧
+    blockBytes Q name p .rgba (gs.map fun a => .rgba 0 0 0 a) = blockBytes Q name p .alpha (gs.map .alpha) := by
+  intro name hn p gs cs
+  unfold blockBytes
+  simp only [blockCodes_eq_uni Q name hn, List.map_map]
+  refine ⟨?_, ?_, ?_, ?_⟩
+  · congr 2
+  · congr 2; apply List.map_congr_left; intro g _; exact asRgba_gray_rgba p g
+  · congr 2; apply List.map_congr_left; intro c _; exact asRgba_rgb_rgba p c.1 c.2.1 c.2.2
+  · congr 2; apply List.map_congr_left; intro a _; exact asRgba_alpha_rgba p a
+
+/-- which encoder runs, as read off `pick_encoder` over the pinned table: the ten block formats have the universal
+path for all 12 colour formats; among the plain formats an integer path exists exactly at the precision the format
+stores (nine at U8, four at U16, three at F32) -/
+theorem carrier_paths :
+    (∀ name ∈ blockNames, ∀ c ∈ allColors, pathOf name c = .uni) ∧
+    (plainNames.filter fun n => pathOf n ⟨.rgba, .u8⟩ != .uni) =
+      ["R8G8B8_UNORM", "B8G8R8_UNORM", "R8G8B8A8_UNORM", "R8G8B8A8_SNORM", "B8G8R8A8_UNORM", "B8G8R8X8_UNORM",
+       "R8_SNORM", "R8_UNORM", "A8_UNORM"] ∧
+    (plainNames.filter fun n => pathOf n ⟨.rgba, .u16⟩ != .uni) =
+      ["R16_UNORM", "R16_SNORM", "R16G16B16A16_UNORM", "R16G16B16A16_SNORM"] ∧
+    (plainNames.filter fun n => pathOf n ⟨.rgba, .f32⟩ != .uni) =
+      ["R32_FLOAT", "R32G32B32_FLOAT", "R32G32B32A32_FLOAT"] := by decide +kernel
+
+/-- non-vacuity: the compared values are `some` bytes, on each kind of path — SNORM8 through `color_convert!`
+(U8 carrier), through `universal!` (U16, F32 carriers); B8G8R8X8 swap + 0xFF; 16-bit `copy`; Alpha into RGB -/
+example : pixelBytes extZero "R8G8B8A8_SNORM" .u8 (.gray 200) = some [72, 72, 72, 127] ∧
+    pixelBytes extZero "R8G8B8A8_SNORM" .u16 (.gray (n8_n16 200)) = some [72, 72, 72, 127] ∧
+    pixelBytes extZero "R8G8B8A8_SNORM" .f32 (.rgba (n8f32 200) (n8f32 200) (n8f32 200) CF32.one) = some [72, 72, 72, 127] ∧
+    pixelBytes extZero "B8G8R8X8_UNORM" .u8 (.rgb 1 2 3) = some [3, 2, 1, 255] ∧
+    pixelBytes extZero "B8G8R8X8_UNORM" .f32 (.rgb (n8f32 1) (n8f32 2) (n8f32 3)) = some [3, 2, 1, 255] ∧
+    pixelBytes extZero "R16_UNORM" .u16 (.gray 0xABCD) = some [0xCD, 0xAB] ∧
+    pixelBytes extZero "R16_UNORM" .f32 (.rgb (n16f32 0xABCD) 0 0) = some [0xCD, 0xAB] ∧
+    pixelBytes extZero "R8G8B8_UNORM" .u8 (.alpha 9) = some [0, 0, 0] ∧
+    pixelBytes extZero "B5G6R5_UNORM" .u16 (.rgb 65535 0 65535) = some [0x1F, 0xF8] ∧
+    pathOf "R8G8B8A8_SNORM" ⟨.gray, .u8⟩ = .conv .rgba false false true ∧
+    pathOf "R16_UNORM" ⟨.gray, .u16⟩ = .copy ∧ pathOf "R16_UNORM" ⟨.gray, .u8⟩ = .uni := by decide +kernel
+example : blockBytes extZero "R8G8_B8G8_UNORM" .u8 .gray [.gray 10, .gray 20] = some [15, 10, 15, 20] ∧
+    blockBytes extZero "R8G8_B8G8_UNORM" .f32 .rgb [.rgb (n8f32 10) (n8f32 10) (n8f32 10), .rgb (n8f32 20) (n8f32 20) (n8f32 20)]
+      = some [15, 10, 15, 20] ∧
+    blockBytes extZero "R1_UNORM" .u16 .gray [.gray 65535, .gray 0, .gray 40000] = some [0xBF] := by decide +kernel
+
+end CarrierIndependence
 
 end Dds.C12
